@@ -14,7 +14,9 @@ RULE = (
     "for every accepted R-AVM execution (address representatives: zero, each literal, creator, a fresh "
     "attacker address; a field the execution never reads counts as the fresh address when a well-formed "
     "transaction can carry it) and every block on its trace the block's information for the field says 'any "
-    "address' or lists the address. converse: direct-check programs; if R-LIT finds no accepting path through "
+    "address' or lists the address. converse: direct-check programs, plus connectives whose other operands were "
+    "computed in another block (value-returning subroutine, value pushed before a label: opaque for the literal "
+    "reading); if R-LIT finds no accepting path through "
     "a block that admits the fresh address, the block must not say 'any address'. Non-trivial = >= 2 address "
     "comparisons under a connective or merged at a join; distinct by source."
 )
@@ -80,6 +82,6 @@ def components(tier, disabled):
     return {
         "sound": {"strategy": semantic_program(profile="modelled", disabled=disabled, max_stmts=(12 if q else 18), focus=list(ATTR) + ["TypeEnum"]),
                   "check": check_sound, "examples": 1600 if q else 80000, "sample": lambda c, i: RCFG(c).text},
-        "converse": {"strategy": semantic_program(profile="direct", disabled=disabled, max_stmts=(12 if q else 18), focus=list(ATTR)),
+        "converse": {"strategy": semantic_program(profile="direct", disabled=disabled, max_stmts=(12 if q else 18), focus=list(ATTR), xflag=True),
                      "check": check_converse, "examples": 1600 if q else 80000, "sample": lambda c, i: RCFG(c).text},
     }
